@@ -1,27 +1,28 @@
 import RTA.Lemmas.RosNaive
 import RTA.Lemmas.RrSound
+import RTA.Lemmas.BwSound
+import RTA.Lemmas.ExecRefine
 import RTA.Spec.Ros2Exec
 /-! # C05 — the RTSS'21 round-robin-aware (rr) and busy-window-aware (bw) analyses are safe
 
-Proved here, for the **rr** analysis with singleton subchains (every callback analysed on its
-own, the setting of the property): if the vector of assumed response-time bounds reproduces
-itself — every callback's analysis returns `Ok(R)` with `R` at most its assumed bound — then
-EVERY instance of EVERY callback completes within its bound (`rr_safe`): for every supply
-process that delivers at least the supply-bound function in every window (every compliant
-budget placement of a reservation, `rr_safe_reservation`), every release pattern within the
-arrival curves, every execution time up to the (scalar) WCET, mixed timer / polled workloads,
-known and unknown priorities.  The executor is specified at the schedule level with polling
-points (`PollingExecLegal`, `RTA/Lemmas/RrSound.lean`: non-preemptive; no idling; timers before
-polled callbacks; a polled instance starts only in the window of a polling point at which it
-was pending, at most one instance per polled callback and window; starvation freedom;
-priority order inside a window).  That runs of the executor transition system
-(`RTA/Spec/Ros2Exec.lean`) satisfy this Spec is checked on every run by executing the executor
-model (`vlib/ros_sim.py: check_polling_legal`), not proved.
+Proved here, for the **rr** and the **bw** analysis with singleton subchains (every callback
+analysed on its own, the setting of the property): if the vector of assumed response-time
+bounds reproduces itself — every callback's analysis returns `Ok(R)` with `R` at most its
+assumed bound — then EVERY instance of EVERY callback completes within its bound (`rr_safe`,
+`bw_safe`): for every supply process that delivers at least the supply-bound function in
+every window (every compliant budget placement of a reservation, `rr_safe_reservation`), every
+release pattern within the arrival curves, every execution time up to the (scalar) WCET, mixed
+timer / polled workloads, known and unknown priorities.
 
-NOT proved: the schedule-level claim for the **bw** analysis and for multi-callback subchains
-(`RrSafe`-style statements over the transition system are kept below); for bw the
-analysis-side facts are proved (bw = naive all-offset evaluation; Lemma 19's step enumeration
-= brute force) and the schedule-level claim is explored by the falsifier. -/
+The executor is specified at the schedule level with polling points (`PollingExecLegal`,
+`RTA/Lemmas/RrSound.lean`) and as an executable transition system (`RTA/Spec/Ros2Exec.lean`);
+`executor_runs_are_legal` proves that EVERY run of the transition system satisfies the
+schedule-level Spec, so the theorems hold for the transition system itself (`rr_safe_lts`,
+`bw_safe_lts`).  The falsifier executes the Python twin of the transition system
+(cross-checked against the Lean definition by the driver op `exec`) against the real analyses.
+
+NOT proved: multi-callback subchains (chains inside the executor with propagated arrival
+curves) and workloads containing event-source callbacks; explored by the falsifier only. -/
 
 namespace RTA.C05
 open RTA RTA.Spec
@@ -88,6 +89,82 @@ theorem rr_safe_reservation (s : Sched.Sys) (Q D P : Nat) (hQ : 1 ≤ Q) (hQD : 
     ∀ j, j < s.n → Sched.MeetsBound s j (wl.getD (s.task j) default).rtb :=
   Sched.rr_singleton_sound s σ E hl (.constrained Q D P) ⟨hQ, hQD, hDP⟩
     (fun t d => cSbf_sound Q D P hQ hQD hDP σ hσ t d) wl C hscalar hwf htask hkinds hprio hN hcost limit hself
+
+/-- C05, bw (singleton subchains): the same for the busy-window-aware analysis (arrival models
+with exact steps) -/
+theorem bw_safe (s : Sched.Sys) (σ : Nat → Bool) (E : Sched.ExecInfo) (hl : Sched.PollingExecLegal s σ E)
+    (sup : Supply) (hs : sup.WF) (hsbf : ∀ t d, sup.sbf d ≤ service σ t d)
+    (wl : List Callback) (C : Nat → Nat)
+    (hscalar : ∀ i, i < wl.length → (wl.getD i default).cost = .scalar (C i))
+    (hwf : ∀ cb ∈ wl, cb.arr.WF ∧ cb.arr.Exact)
+    (htask : ∀ k, k < s.n → s.task k < wl.length)
+    (hkinds : Sched.KindsAgree wl E)
+    (hprio : ∀ i j, i < wl.length → j < wl.length → E.isTimer i = false → E.isTimer j = false →
+      E.prio i = E.prio j → i = j)
+    (hN : ∀ i t d, Sched.countOf s i t (t + d) ≤ (wl.getD i default).arr.N d)
+    (hcost : ∀ k, k < s.n → 1 ≤ s.cost k ∧ s.cost k ≤ C (s.task k))
+    (limit : Nat) (dbg : Bool)
+    (hself : ∀ i, i < wl.length → ∃ R, bwSubchain sup wl [i] limit dbg = .ok R ∧ R ≤ (wl.getD i default).rtb) :
+    ∀ j, j < s.n → Sched.MeetsBound s j (wl.getD (s.task j) default).rtb :=
+  Sched.bw_singleton_sound s σ E hl sup hs hsbf wl C hscalar hwf htask hkinds hprio hN hcost limit dbg hself
+
+/-- refinement: EVERY run of the executor transition system (`RTA/Spec/Ros2Exec.lean`; supply
+process `sigma`, releases `rels`, nothing released from `H` on) satisfies the schedule-level
+Spec — so `rr_safe` and `bw_safe` hold for the job system `Exec.toSys` of every run -/
+theorem executor_runs_are_legal (cbs : List Exec.Cb) (sigma : Nat → Bool) (rels : Nat → List Nat) (H : Nat)
+    (hidx : ∀ t, ∀ i ∈ rels t, i < cbs.length) (hfin : ∀ t, H ≤ t → rels t = [])
+    (hcost : ∀ c ∈ cbs, 1 ≤ c.cost) :
+    Sched.PollingExecLegal (Exec.toSys cbs sigma rels H) sigma (Exec.toInfo cbs sigma rels) :=
+  Exec.run_polling_legal cbs sigma rels H hidx hfin hcost
+
+/-- C05 for rr over the transition system itself: in every run, every release event has
+received its full service within the assumed bound of its callback -/
+theorem rr_safe_lts (cbs : List Exec.Cb) (sigma : Nat → Bool) (rels : Nat → List Nat) (H : Nat)
+    (hidx : ∀ t, ∀ i ∈ rels t, i < cbs.length) (hfin : ∀ t, H ≤ t → rels t = [])
+    (hcb : ∀ c ∈ cbs, 1 ≤ c.cost)
+    (sup : Supply) (hs : sup.WF) (hsbf : ∀ t d, sup.sbf d ≤ service sigma t d)
+    (wl : List Callback) (C : Nat → Nat)
+    (hscalar : ∀ i, i < wl.length → (wl.getD i default).cost = .scalar (C i))
+    (hwf : ∀ cb ∈ wl, cb.arr.WF)
+    (htask : ∀ k, k < (Exec.toSys cbs sigma rels H).n → (Exec.toSys cbs sigma rels H).task k < wl.length)
+    (hkinds : Sched.KindsAgree wl (Exec.toInfo cbs sigma rels))
+    (hprio : ∀ i j, i < wl.length → j < wl.length → (Exec.toInfo cbs sigma rels).isTimer i = false →
+      (Exec.toInfo cbs sigma rels).isTimer j = false →
+      (Exec.toInfo cbs sigma rels).prio i = (Exec.toInfo cbs sigma rels).prio j → i = j)
+    (hN : ∀ i t d, Sched.countOf (Exec.toSys cbs sigma rels H) i t (t + d) ≤ (wl.getD i default).arr.N d)
+    (hcost : ∀ k, k < (Exec.toSys cbs sigma rels H).n →
+      1 ≤ (Exec.toSys cbs sigma rels H).cost k ∧
+      (Exec.toSys cbs sigma rels H).cost k ≤ C ((Exec.toSys cbs sigma rels H).task k))
+    (limit : Nat)
+    (hself : ∀ i, i < wl.length → ∃ R, rrSubchain sup wl [i] limit = .ok R ∧ R ≤ (wl.getD i default).rtb) :
+    ∀ j, j < (Exec.toSys cbs sigma rels H).n →
+      Sched.MeetsBound (Exec.toSys cbs sigma rels H) j (wl.getD ((Exec.toSys cbs sigma rels H).task j) default).rtb :=
+  Sched.rr_singleton_sound _ sigma _ (Exec.run_polling_legal cbs sigma rels H hidx hfin hcb) sup hs hsbf wl C
+    hscalar hwf htask hkinds hprio hN hcost limit hself
+
+/-- and for bw -/
+theorem bw_safe_lts (cbs : List Exec.Cb) (sigma : Nat → Bool) (rels : Nat → List Nat) (H : Nat)
+    (hidx : ∀ t, ∀ i ∈ rels t, i < cbs.length) (hfin : ∀ t, H ≤ t → rels t = [])
+    (hcb : ∀ c ∈ cbs, 1 ≤ c.cost)
+    (sup : Supply) (hs : sup.WF) (hsbf : ∀ t d, sup.sbf d ≤ service sigma t d)
+    (wl : List Callback) (C : Nat → Nat)
+    (hscalar : ∀ i, i < wl.length → (wl.getD i default).cost = .scalar (C i))
+    (hwf : ∀ cb ∈ wl, cb.arr.WF ∧ cb.arr.Exact)
+    (htask : ∀ k, k < (Exec.toSys cbs sigma rels H).n → (Exec.toSys cbs sigma rels H).task k < wl.length)
+    (hkinds : Sched.KindsAgree wl (Exec.toInfo cbs sigma rels))
+    (hprio : ∀ i j, i < wl.length → j < wl.length → (Exec.toInfo cbs sigma rels).isTimer i = false →
+      (Exec.toInfo cbs sigma rels).isTimer j = false →
+      (Exec.toInfo cbs sigma rels).prio i = (Exec.toInfo cbs sigma rels).prio j → i = j)
+    (hN : ∀ i t d, Sched.countOf (Exec.toSys cbs sigma rels H) i t (t + d) ≤ (wl.getD i default).arr.N d)
+    (hcost : ∀ k, k < (Exec.toSys cbs sigma rels H).n →
+      1 ≤ (Exec.toSys cbs sigma rels H).cost k ∧
+      (Exec.toSys cbs sigma rels H).cost k ≤ C ((Exec.toSys cbs sigma rels H).task k))
+    (limit : Nat) (dbg : Bool)
+    (hself : ∀ i, i < wl.length → ∃ R, bwSubchain sup wl [i] limit dbg = .ok R ∧ R ≤ (wl.getD i default).rtb) :
+    ∀ j, j < (Exec.toSys cbs sigma rels H).n →
+      Sched.MeetsBound (Exec.toSys cbs sigma rels H) j (wl.getD ((Exec.toSys cbs sigma rels H).task j) default).rtb :=
+  Sched.bw_singleton_sound _ sigma _ (Exec.run_polling_legal cbs sigma rels H hidx hfin hcb) sup hs hsbf wl C
+    hscalar hwf htask hkinds hprio hN hcost limit dbg hself
 
 /-- analysis side: rr = naive linear-scan evaluation -/
 theorem rr_is_naive (s : Supply) (hs : s.WF) (wl : List Callback) (sub : List Nat) (limit : Nat)
